@@ -2,6 +2,7 @@ SPECIFICATION TSpec
 CONSTRAINT ByteCompat
 CONSTRAINT DecodeEqual
 CONSTRAINT ObfCompat
+CONSTRAINT FramesIntact
 CONSTRAINT NoException
 CONSTRAINT FedValid
 CHECK_DEADLOCK FALSE
